@@ -165,6 +165,16 @@ Theorem C12_exactly_one_uses_it :
 Proof. apply never_another_section. vm_compute. reflexivity. Qed.
 Print Assumptions C12_exactly_one_uses_it.
 
+(* building the objects in Python and handing them to Configuration(...) directly: for EVERY set of running-mode /
+   detector objects given, the checks of Configuration.__post_init__ (regenerated) let it through iff exactly one
+   running mode and exactly one detector are given *)
+Theorem C12_exactly_one_built :
+  forall given : list string,
+    checks_pass src_checks_built (given_state given) = true <->
+    exactly_one mode_keys (present_of given) /\ exactly_one detector_keys (present_of given).
+Proof. apply built_checks_sound. vm_compute. reflexivity. Qed.
+Print Assumptions C12_exactly_one_built.
+
 Example C12_exactly_one_accepts :
   dispatch src_checks_doc src_checks_built src_mode_dispatch src_detector_dispatch
            (state_of [("pipeline", SFilled); ("observation", SFilled); ("apd_detector", SFilled)])
